@@ -84,6 +84,14 @@ def run(chk):
                 try:
                     impl.sspor_bystander(n, p)      # another model fitted and used in between must not influence this one
                     out = impl.quiet(model.predict, Xsig[:, S].copy())
+                    # the reconstruction handed out is kept while the model reconstructs OTHER signals of the same batch shape and is scored
+                    held = impl.Held()
+                    held.hold("predict result", out)
+                    impl.quiet(model.predict, (Xsig[::-1, :][:, S] * 3 + 1).copy())
+                    impl.quiet(model.score, np.ascontiguousarray(Xsig[::-1] * 2))
+                    for lab, _c in held.disturbed():
+                        chk.violation("impl", "result-handed-out-overwritten", f"{lab}: the array returned by predict changed when predict / score were called again", case)
+                    out = impl.quiet(model.predict, Xsig[:, S].copy())
                     one = impl.quiet(model.predict, Xsig[0, S].copy())
                 except Exception as e:
                     chk.violation("impl", "predict-raises", f"predict raised {type(e).__name__}: {e}", case)
